@@ -71,7 +71,9 @@ def damage_part(chk, tier):
     hs = wcommon.gen_histories(chk, [2, 3], [3, 4], 2, 2, simulate=12 if tier == "quick" else 60, depth=40, workers=4)
     hs = [h for h in hs if wcommon.nontrivial_history(h)][: (5 if tier == "quick" else 40)]
     hs += wcommon.gen_histories(chk, [1], [4], 1, 3, limit=3)
-    cfgs = [(c, 64) for c in sorted(wcommon.SPEC_DECODABLE)]
+    # every codec carquet can write; GZIP / ZSTD bodies are opaque to the specification: their page map comes from the
+    # layout-only reference parse (page headers, sizes, checksums), their content from the read of the undamaged file
+    cfgs = [(c, 64) for c in sorted(wcommon.CODECS)]
     execs, meta, files, faults = wcommon.run_histories(chk, hs, cfgs, modes=(), with_file=False, label="d")
     fdir = os.path.join(common.scratch_root(), "dmg-%d" % os.getpid())
     os.makedirs(fdir, exist_ok=True)
@@ -84,7 +86,7 @@ def damage_part(chk, tier):
                 p = os.path.join(fdir, cid + ".src")
                 open(p, "wb").write(fb)
                 srcs[cid] = (p, fb)
-                fh.write(json.dumps({"id": cid, "bytes": list(fb)}) + "\n")
+                fh.write(json.dumps({"id": cid, "bytes": list(fb), "layout": meta[cid][1] not in wcommon.SPEC_DECODABLE}) + "\n")
         r = common.tlc_ok(common.run_tlc("MC_PageMap", workers=1, env={"TRACE": os.path.join(fdir, "files.ndjson")}), "MC_PageMap")
         chk.add_tlc(r)
         lines, info = [], {}
@@ -98,7 +100,10 @@ def damage_part(chk, tier):
             ops = meta[cid][0]
             chunks = sorted({(p["g"], p["c"]) for p in pm["pages"]})
             damages = [(-1, b"")]
+            layout = meta[cid][1] not in wcommon.SPEC_DECODABLE
             for p in pm["pages"]:
+                if layout and tier == "quick" and p["k"] > 3:
+                    continue
                 for off in range(p["len"]):
                     pos = p["first"] + off
                     if tier == "quick":
@@ -137,7 +142,10 @@ def damage_part(chk, tier):
         by_file = {}
         for lid, (cid, pos, mask, mode, verify, chunks, ops) in info.items():
             toks = res.get(lid)
-            evs = by_file.setdefault(cid, [{"id": cid, "e": "File", "bytes": list(srcs[cid][1])}])
+            if cid not in by_file:
+                layout = meta[cid][1] not in wcommon.SPEC_DECODABLE
+                by_file[cid] = [{"id": cid, "e": "File", "bytes": list(srcs[cid][1]), "layout": layout, "content": []}]
+            evs = by_file[cid]
             cols = ops[0]["cols"]
             chk.count(("dmg", cid, pos, mask.hex(), mode, verify), pos >= 0)
             if lid in fault_of and toks is None:
@@ -162,10 +170,14 @@ def damage_part(chk, tier):
                     continue
                 f = ds[di].split(":"); di += 1
                 typ, tlen = cols[c]["type"], cols[c]["tlen"]
-                evs.append({"id": lid, "e": "Read", "g": g, "c": c, "pos": pos, "verify": bool(verify),
-                            "delivered": int(f[0]), "error": f[1] == "1",
-                            "defs": [] if f[2] == "-" else [ord(ch) - 48 for ch in f[2]],
-                            "vals": wcommon.dec_vals(typ, tlen, f[3]), "fault": fault_of.get(lid, "")})
+                ev = {"id": lid, "e": "Read", "g": g, "c": c, "pos": pos, "verify": bool(verify),
+                      "delivered": int(f[0]), "error": f[1] == "1",
+                      "defs": [] if f[2] == "-" else [ord(ch) - 48 for ch in f[2]],
+                      "vals": wcommon.dec_vals(typ, tlen, f[3]), "fault": fault_of.get(lid, "")}
+                evs.append(ev)
+                if evs[0]["layout"] and pos < 0 and mode == "f" and verify and not ev["error"] \
+                        and not any(x["g"] == g and x["c"] == c for x in evs[0]["content"]):
+                    evs[0]["content"].append({"g": g, "c": c, "defs": ev["defs"], "vals": ev["vals"]})
         verdicts, stats, ress = common.validate_traces("DamageTrace", list(by_file.values()))
         for rr in ress:
             chk.add_tlc(rr)
@@ -189,7 +201,7 @@ def damage_part(chk, tier):
 
 def run(chk, tier, replay):
     chk.assumptions += ["Damage positions = page-body byte ranges computed by the TLA+ reference reader on the undamaged file",
-                        "Only codecs the TLA+ reader can lay out are used as fixtures: " + str(sorted(wcommon.SPEC_DECODABLE)),
+                        "Fixtures use every codec carquet writes; for GZIP/ZSTD (no TLA+ model of the body) the page map is the layout-only reference parse and the expected content is what the undamaged file reads as",
                         "Crc32.tla validated against the published check value CBF43926 (MC_LibSelf)"]
     r = common.tlc_ok(common.run_tlc("MC_LibSelf", workers=1, want_cases=False), "MC_LibSelf")
     if r.violated:
